@@ -624,6 +624,14 @@ def r9_loop_jump(facts):
                     l2, r2_ = strip(ap2[0]), strip(ap2[1])
                     if l2.get('k') == 'MemberExpr' and short(l2['n']) == 'wait' and strip(l2.get('b')).get('k') == 'MemberExpr' and short(strip(l2['b'])['n']) == 'm_currentPosition':
                         ok = r2_.get('k') == 'MemberExpr' and short(r2_['n']) == 'wait' and strip(r2_.get('b')).get('id') in rowbegin
+                        if not ok and r2_.get('k') == 'DeclRefExpr' and not r2_.get('parm'):
+                            # a local initialised with <row begin>.wait
+                            for b3, j3, st3 in fn.cfg.stmts():
+                                if st3['s'].get('k') == 'DeclStmt':
+                                    for v in st3['s']['decls']:
+                                        i3 = strip(v.get('init')) if v.get('init') is not None else None
+                                        if v['id'] == r2_.get('id') and i3 is not None and i3.get('k') == 'MemberExpr' and short(i3['n']) == 'wait' and strip(i3.get('b')).get('id') in rowbegin:
+                                            ok = True
                         break
                 out.append(Obl('C03.R9', fn.name, 'jump to %s' % sname, st['loc'], 'discharged' if ok else 'finding',
                                why='followed by m_currentPosition.wait = <row begin>.wait: the owed time is kept' if ok else
@@ -672,8 +680,11 @@ def r10_file_streams(facts):
                     pass
                 n += 1
                 gf = guard_facts(fn, b, st)
+                def is_null(r):
+                    r = strip(r)
+                    return const_of(r) == 0 or (r.get('k') or '') in ('GNUNullExpr', 'CXXNullPtrLiteralExpr') or show(r) in ('GNUNullExpr', 'NULL', 'nullptr')
                 ok = any((f[0] == 'truth' and f[2] and strip(f[1]).get('n') == hit['n']) or
-                         (f[0] == 'cmp' and f[1] == '!=' and strip(f[2]).get('n') == hit['n'] and const_of(f[3]) == 0) for f in gf)
+                         (f[0] == 'cmp' and f[1] == '!=' and strip(f[2]).get('n') == hit['n'] and is_null(f[3])) for f in gf)
                 out.append(Obl('C03.R10', fn.name, '%s(.. %s ..)' % (cn, short(hit['n'])), st['loc'], 'discharged' if ok else 'finding',
                                why='dominated by a test of %s' % short(hit['n']) if ok else
                                '%s is NULL when the output file cannot be created (fopen failed; the assert is compiled out): %s() on a NULL stream crashes inside opn2_switchEmulator / opn2_close' % (short(hit['n']), cn)))
